@@ -1,0 +1,10 @@
+//go:build !verif
+
+package service
+
+import (
+	"github.com/metrico/qryn/writer/utils/promise"
+)
+
+func (svc *InsertServiceV2) vtrace(ev int, req any, p *promise.Promise[uint32], ps []*promise.Promise[uint32], n int, err error) {
+}
